@@ -98,7 +98,9 @@ def run_property(mod, tier, seed, replay=None):
                 continue        # V.run_cases stopped after MAX_CRASHES crashes: the verdict is already a violation
             j = mod.judge(case, io, mo, so)
             if j is not None:
-                viol.append((j[0], j[1], {"case": case, "impl": io, "model": mo, "spec": so, "config": c}))
+                # the cases that ran just before it in the same process are kept: a failure may depend on call history
+                viol.append((j[0], j[1], {"case": case, "impl": io, "model": mo, "spec": so, "config": c,
+                                          "preceding": [x for x in cases[max(0, k - 3):k] if len(x) < 4000]}))
             if mo is not None and hasattr(mod, "canon"):
                 a, b = mod.canon(io), mod.canon(mo)
             else:
@@ -148,7 +150,7 @@ def run_property(mod, tier, seed, replay=None):
                 by_sig[sig] = (msg, rp)
         for sig, (msg, rp) in sorted(by_sig.items()):
             path = V.write_replay(prop, "fail", {"property": prop, "signature": sig, "message": msg,
-                                                 "cases": [rp.get("case")] if rp.get("case") else [],
+                                                 "cases": (rp.get("preceding", []) + [rp.get("case")]) if rp.get("case") else [],
                                                  "observed": rp, "unproved": unproved,
                                                  "replay_cmd": "bin/check %s --replay <this file>" % prop})
             out_lines.append("VIOLATION property=%s replay=%s" % (prop, path))
